@@ -89,19 +89,57 @@ class TimePass:
         return b
 
 
-def real_times(ctx, tp, rng, sanitise=True, **reader_kw):
+def direct_reader(tp):
+    """A real reader whose `scans` / `head` hold only the fields the time pipeline reads (sub-dtypes taken from
+    the reader's own record dtype); no file is written, so passes of any length are cheap."""
+    cls = filegen.reader_class(tp.fmt)
+    r = cls()
+    fam = FMT[tp.fmt]["family"]
+    st = r.scanline_type
+    n = len(tp.nums)
+    if fam == "klm":
+        names = ["scan_line_number", "scan_line_year", "scan_line_day_of_year", "scan_line_utc_time_of_day"]
+        scans = np.zeros(n, dtype=[(k, st.fields[k][0]) for k in names])
+        scans["scan_line_number"] = np.asarray(tp.nums).astype(np.uint16)
+        scans["scan_line_year"] = tp.year
+        scans["scan_line_day_of_year"] = tp.jday
+        scans["scan_line_utc_time_of_day"] = tp.msec
+        from pygac import klm_reader
+        head = np.zeros(1, dtype=klm_reader.header)[0]
+        y, d, m = tp.header_fields if tp.header_fields is not None else ms_to_ydm(tp.header_ms)
+        head["start_of_data_set_year"], head["start_of_data_set_day_of_year"] = y, d
+        head["start_of_data_set_utc_time_of_day"] = m
+    else:
+        names = ["scan_line_number", "time_code"]
+        scans = np.zeros(n, dtype=[(k, st.fields[k][0]) for k in names])
+        scans["scan_line_number"] = np.asarray(tp.nums).astype(np.int16)
+        scans["time_code"] = np.array([[((int(y) % 100) << 9) | (int(d) & 0x1FF), (int(m) >> 16) & 2047, int(m) & 0xFFFF]
+                                       for y, d, m in zip(tp.year, tp.jday, tp.msec)])
+        from pygac import pod_reader
+        head = np.zeros(1, dtype=pod_reader.header3)[0]
+        y, d, m = tp.header_fields if tp.header_fields is not None else ms_to_ydm(tp.header_ms)
+        head["start_time"] = [((int(y) % 100) << 9) | (int(d) & 0x1FF), (int(m) >> 16) & 2047, int(m) & 0xFFFF]
+    r.scans, r.head = scans, head
+    return r
+
+
+def real_times(ctx, tp, rng, sanitise=True, direct=False, **reader_kw):
     """Run the real reader. Returns dict(kind, times(list of int ms)|None, raw=(nums,year,jday,msec) seen by stage 1,
     head_ms|None, reader)."""
-    b = tp.build(ctx, rng)
-    data = b.tobytes()
-    cls = filegen.reader_class(tp.fmt)
-    kw = dict(tle_dir=filegen.tle_dir(ctx), tle_name="TLE_%(satname)s.txt")
-    kw.update(reader_kw)
-    if not sanitise:
-        cls = type(cls.__name__ + "NoSanitise", (cls,), {"correct_scan_line_numbers": lambda self: {}})
-    r = cls(**kw)
-    r.read(b.dsname, fileobj=io.BytesIO(data))
-    res = {"reader": r, "builder": b}
+    if direct:
+        r = direct_reader(tp)
+        res = {"reader": r, "builder": None}
+    else:
+        b = tp.build(ctx, rng)
+        data = b.tobytes()
+        cls = filegen.reader_class(tp.fmt)
+        kw = dict(tle_dir=filegen.tle_dir(ctx), tle_name="TLE_%(satname)s.txt")
+        kw.update(reader_kw)
+        if not sanitise:
+            cls = type(cls.__name__ + "NoSanitise", (cls,), {"correct_scan_line_numbers": lambda self: {}})
+        r = cls(**kw)
+        r.read(b.dsname, fileobj=io.BytesIO(data))
+        res = {"reader": r, "builder": b}
     y, d, m = r._get_times_from_file()
     res["raw"] = ([int(x) for x in r.scans["scan_line_number"]], [int(x) for x in np.asarray(y)],
                   [int(x) for x in np.asarray(d)], [int(x) for x in np.asarray(m)])
